@@ -1,4 +1,4 @@
-import Garr.Num.F64
+import Garr.Num.F64Bits
 /-! Driver glue: hex / decimal parsing, binary64 bit patterns ↔ `F64`. Trusted, validated differentially. -/
 namespace Driver
 open Garr
@@ -17,24 +17,8 @@ def hexDigit (d : Nat) : Char := if d < 10 then Char.ofNat (48 + d) else Char.of
 
 def toHex (n : Nat) : String := String.ofList ((Nat.toDigits 16 n))
 
-/-- decode 64 raw bits -/
-def f64OfBits (b : Nat) : F64 :=
-  let neg : Bool := decide ((b / 2^63) % 2 = 1)
-  let E : Nat := (b / 2^52) % 2048
-  let F : Nat := b % 2^52
-  if E = 2047 then (if F = 0 then .inf neg else .nan)
-  else if E = 0 then .fin neg F (-1074)
-  else .fin neg (2^52 + F) ((E : Int) - 1075)
-
-def canonNaN : Nat := 0x7FF8000000000001
-
-/-- encode a canonical value (all NaNs map to one pattern) -/
-def bitsOfF64 : F64 → Nat
-  | .nan => canonNaN
-  | .inf neg => (if neg then 2^63 else 0) + 2047 * 2^52
-  | .fin neg m e =>
-    (if neg then 2^63 else 0) +
-      (if m < 2^52 then m else ((e + 1075).toNat) * 2^52 + (m - 2^52))
+def f64OfBits (b : Nat) : F64 := F64.ofBits b
+def bitsOfF64 (x : F64) : Nat := F64.toBits x
 
 def f64? (s : String) : Option F64 := (hexVal? s).map f64OfBits
 def f64Hex (x : F64) : String := toHex (bitsOfF64 x)
